@@ -212,7 +212,8 @@ func anchorOrigin(ao int) interface{} {
 		return nil
 	case ao >= 100:
 		// (member names whose UTF-16 order differs from their UTF-8 / code point order)
-		return map[string]interface{}{"o": ao - 100, "\ufb01": 1, "\U0001f600": 2}
+		// ... and a number that Go and ECMAScript write differently (2.5e-07 / 2.5e-7)
+		return map[string]interface{}{"o": ao - 100, "\ufb01": 1, "\U0001f600": 2.5e-7}
 	default:
 		return fmt.Sprintf("origin-%d", ao)
 	}
@@ -237,6 +238,24 @@ func equivRefs(eq int) []string {
 	}
 
 	return []string{fmt.Sprintf("eq-%d-a", eq), fmt.Sprintf("eq-%d-b", eq)}
+}
+
+// notAMultihash: a string where a multihash is expected that is none, in one of several shapes (by rotation):
+// arbitrary bytes; the code of a configured algorithm followed by a digest that is shorter than the length
+// byte says, by a full digest with bytes after it, or by nothing at all.
+func (o *ROp) notAMultihash(alg int) string {
+	digest := refHash(alg, []byte("some value"))
+
+	switch o.way(4) {
+	case 1:
+		return b64(refMultihash(alg, digest)[:len(digest)-10])
+	case 2:
+		return b64(append(refMultihash(alg, digest), 1, 2, 3))
+	case 3:
+		return b64([]byte{byte(alg)})
+	}
+
+	return "bm90IGEgbXVsdGloYXNo"
 }
 
 // an encoded multihash that is well formed but names an unsupported algorithm (sha3-256)
@@ -377,7 +396,7 @@ func (c *Concretizer) buildDelta(o *ROp) map[string]interface{} {
 		case "noaction":
 			delta["patches"] = []interface{}{map[string]interface{}{"publicKeys": []interface{}{c.docKeyJSON(1)}}}
 		case "upd_mh":
-			delta["updateCommitment"] = "bm90IGEgbXVsdGloYXNo"
+			delta["updateCommitment"] = o.notAMultihash(algCode(o.H))
 		case "toolarge":
 			delta["patches"] = append(c.patchesFor(o.Delta),
 				jsonPatch(map[string]interface{}{"op": "add", "path": "/big", "value": strings.Repeat("x", 1800)}))
@@ -462,7 +481,7 @@ func (c *Concretizer) buildRequest(o *ROp, variant int) ([]byte, int) {
 
 	recCommit := c.commitment(o.Nr, o.H)
 	if o.Wf == "rc_mh" {
-		recCommit = "bm90IGEgbXVsdGloYXNo"
+		recCommit = o.notAMultihash(alg)
 	}
 
 	if o.Wf == "rc_long" {
@@ -479,6 +498,18 @@ func (c *Concretizer) buildRequest(o *ROp, variant int) ([]byte, int) {
 		req := map[string]interface{}{"type": o.Type, "suffixData": sd}
 		if delta != nil {
 			req["delta"] = delta
+		}
+
+		// a request of no known type: an unknown type string, no type member, an empty string, null
+		if o.Type == "bogus" {
+			switch o.way(4) {
+			case 1:
+				delete(req, "type")
+			case 2:
+				req["type"] = ""
+			case 3:
+				req["type"] = nil
+			}
 		}
 
 		switch o.Wf {
@@ -565,6 +596,17 @@ func (c *Concretizer) buildRequest(o *ROp, variant int) ([]byte, int) {
 		if !o.Sfx {
 			signed["didSuffix"] = "EiAnotherSuffixAnotherSuffixAnotherSuffixAnoth"
 		}
+
+		// the signed data of every other deactivate also carries a revealValue member (a field of the model that
+		// nothing reads): it decides nothing - the reveal value is the request's. It is the signer's own hash
+		// where the request's is wrong, and another key's hash where the request's is right.
+		if o.way(2) == 1 {
+			if o.Reveal == "other" {
+				signed["revealValue"] = refReveal(jwkMap(jwk), alg)
+			} else {
+				signed["revealValue"] = refReveal(jwkMap(other.JWK), alg)
+			}
+		}
 	}
 
 	if o.Wf == "nokey" {
@@ -640,7 +682,7 @@ func (c *Concretizer) buildRequest(o *ROp, variant int) ([]byte, int) {
 	}
 
 	if o.Wf == "reveal_mh" {
-		reveal = "bm90IGEgbXVsdGloYXNo"
+		reveal = o.notAMultihash(alg)
 	}
 
 	if o.Wf == "reveal_long" {
